@@ -369,6 +369,7 @@ class SplitLoop(Contract):
 
                 def sym_method(s_, I2, name, a, kw):
                     if name == 'sort':
+                        I2.e.prove('C18/split/entries-sorted-by-their-own-order', not a and not kw)
                         s_.sorted = True
                         return None
                     raise Unsupported(name)
@@ -1030,6 +1031,20 @@ class NativeBookkeeping(NativeCheck):
                 total = sum(int(r[tot_col[0]]) for r in body)
                 if total != len(inputs):
                     return dict(call=f'summarizeFasta {inp}', observed=f'totals add up to {total}', expected=f'{len(inputs)} peptides', signature='summary-total')
+                # per-source-set counts agree with the sizes of the split databases (same options, no additional split)
+                if inp['additional_split'] is None:
+                    remaining = 0
+                    for r in body:
+                        key, n_ = r[0], int(r[tot_col[0]])
+                        if len(key.split('-')) <= inp['max_source_groups']:
+                            if n_ != sizes.get(key, 0):
+                                return dict(call=f'summarizeFasta vs splitFasta {inp}: {key}', observed=f'summary {n_}, database {sizes.get(key, 0)}',
+                                            expected='equal', signature='summary-disagrees-with-split')
+                        else:
+                            remaining += n_
+                    if remaining != sizes.get('Remaining', 0):
+                        return dict(call=f'summarizeFasta vs splitFasta {inp}: Remaining', observed=f'summary {remaining}, database {sizes.get("Remaining", 0)}',
+                                    expected='equal', signature='summary-disagrees-with-split')
             # merge = union
             margs = argparse.Namespace(command='mergeFasta', input_path=list(fastas.values()), output_path=d / 'merged.fasta', dedup_header=False, quiet=True)
             cli.merge_fasta(margs)
@@ -1088,6 +1103,70 @@ class NativeBookkeeping(NativeCheck):
 
     def nontrivial(self, inp):
         return str(inp)
+
+
+SUM = 'moPepGen/aa/PeptidePoolSummarizer.py'
+
+
+@register
+class SummaryAddEntry(Contract):
+    """summarizeFasta counts a peptide once, under the source set of the first header entry after sorting the entries by their own order
+    (the order splitFasta uses: VariantSourceSet.__gt__), obtained from the same parser with the given label and group maps; the
+    miscleavage count goes to the same source set"""
+    path, qualname, props = SUM, 'NoncanonicalPeptideSummaryTable.add_entry', ('C18',)
+    assumptions = ('summary: VariantPeptideInfo.from_variant_peptide and the order are their own contracts; list.sort() with the proved order puts a '
+                   'minimal entry first; find_all_enzymatic_cleave_sites is external',)
+
+    def setup(self, I):
+        e = I.e
+        st = types.SimpleNamespace(calls=[], infos=None)
+        st.pep = SymObj('Pep18sum')
+        st.label_map, st.group_map, st.tx2gene, st.coding = SymObj('LabelSourceMapping'), SymObj('GroupMap18'), SymObj('Tx2Gene'), SymObj('CodingTx')
+        st.self = SymObj('NoncanonicalPeptideSummaryTable', max_misc=0)
+        st.args = [st.self, st.pep, st.label_map, st.group_map, st.tx2gene, st.coding, 'trypsin' if e.branch(e.bool('enzyme_is_trypsin'), 'enzyme') else 'lysc']
+        self._cur = st
+        return st
+
+    @property
+    def models(self):
+        c = self
+
+        def inst(reg):
+            class Infos:
+                def __init__(s_):
+                    s_.sorted = False
+
+                def sym_method(s_, I2, name, a, kw):
+                    if name == 'sort':
+                        I2.e.prove('C18/summary/entries-sorted-by-their-own-order', not a and not kw)
+                        s_.sorted = True
+                        return None
+                    raise Unsupported(name)
+
+                def sym_getitem(s_, I2, idx):
+                    I2.e.prove('C18/summary/top-entry-taken-after-sorting', s_.sorted and idx == 0)
+                    return SymObj('Info18', sources=SymObj('TopSources'))
+
+            def from_pep(I, a, k):
+                st = c._cur
+                I.e.prove('C18/summary/header-parsed-with-the-given-maps-and-sources-checked',
+                          k.get('peptide') is st.pep and k.get('label_map') is st.label_map and k.get('group_map') is st.group_map
+                          and k.get('tx2gene') is st.tx2gene and k.get('coding_tx') is st.coding and k.get('check_source', True) is True and not a)
+                st.infos = Infos()
+                return st.infos
+            reg.func_(VPL, 'VariantPeptideInfo.from_variant_peptide', from_pep)
+            reg.method_('VariantPeptideInfo', 'from_variant_peptide', lambda I, o, a, k: from_pep(I, a, k))
+            reg.set_hooks.append(lambda v: (lambda I, v: v) if isinstance(v, SymObj) and v.cls == 'TopSources' else None)
+            reg.method_('NoncanonicalPeptideSummaryTable', 'increment_total', lambda I, o, a, k: c._cur.calls.append(('total', a[0])))
+            reg.method_('NoncanonicalPeptideSummaryTable', 'increment_misc', lambda I, o, a, k: c._cur.calls.append(('misc', a[0], a[1])))
+            reg.method_('Pep18sum', 'find_all_enzymatic_cleave_sites', lambda I, o, a, k: FnView(I.e.int('n_sites'), lambda i: i, tag='sites'))
+        return (inst,)
+
+    def post_return(self, I, st, ret):
+        tot = [x for x in st.calls if x[0] == 'total']
+        misc = [x for x in st.calls if x[0] == 'misc']
+        I.e.prove('C18/summary/peptide-counted-exactly-once-under-its-top-source-set',
+                  len(tot) == 1 and isinstance(tot[0][1], SymObj) and tot[0][1].cls == 'TopSources' and len(misc) == 1 and misc[0][1] is tot[0][1])
 
 
 class NativeWildcardMap(NativeCheck):
@@ -1151,4 +1230,59 @@ class NativeWildcardMap(NativeCheck):
         return 'wild' if any('*' in x or '+' in x for x in inp['order']) else 'plain'
 
 
-NATIVE = [NativeBookkeeping(), NativeWildcardMap()]
+class NativeHeaderRoundTrip(NativeCheck):
+    name = 'header_round_trip'
+    props = ('C18',)
+    functions = ('moPepGen/aa/VariantPeptideIdentifier.py:parse_variant_peptide_id', f'{VPL}:VariantPeptideInfo.from_variant_peptide', f'{SPL}:PeptidePoolSplitter.split')
+    bounded_for = ('header parsing and printing keep every field of every entry: for headers of the shapes the calling commands emit (variant, '
+                   'novel ORF, circRNA, fusion entries; W2F / SECT labels in any of them; ORF ids; several entries per header) the printed form of '
+                   'the parsed entry has the same fields, and splitFasta on a FASTA of such headers keeps every entry of every header')
+    bound = 'random headers from the grammar of the four entry kinds, 1-3 entries per header; quick 300 headers, thorough 4000; one split run of 60 such peptides'
+    quick_budget_s = 30
+    thorough_budget_s = 120
+
+    @staticmethod
+    def entry(rng):
+        var = lambda: rng.choice([f'SNV-{rng.randint(1, 900)}-A-T', f'INDEL-{rng.randint(1, 900)}-CC-C', f'MNV-{rng.randint(1, 900)}-ACC-TAA', f'RES-{rng.randint(1, 900)}-A-G',
+                                  f'SE-{rng.randint(1, 900)}', f'RI-{rng.randint(1, 900)}-{rng.randint(901, 999)}', f'A3SS-{rng.randint(1, 900)}', f'A5SS-{rng.randint(1, 900)}',
+                                  f'MXE-{rng.randint(1, 400)}-{rng.randint(401, 900)}'])
+        alt = lambda: rng.choice([f'W2F-{rng.randint(1, 30)}', f'SECT-{rng.randint(1, 300)}'])
+        tx = lambda: f'ENST{rng.randint(1, 9):04d}.{rng.randint(1, 3)}'
+        orf = [f'ORF{rng.randint(1, 4)}'] if rng.random() < 0.4 else []
+        idx = [str(rng.randint(1, 25))]
+        kind = rng.choice(['base', 'novel', 'circ', 'fusion'])
+        if kind == 'base':
+            # an entry with an ORF id and no gene id comes from callVariant and always carries an external variant
+            vs = [var() for _ in range(rng.randint(1 if orf else 0, 2))] + [alt() for _ in range(rng.randint(0, 2))]
+            if not vs:
+                vs = [var()]
+            rng.shuffle(vs)
+            return [tx()] + vs + orf + idx
+        if kind == 'novel':
+            return [tx(), f'ENSG{rng.randint(1, 9):04d}.1'] + [f'W2F-{rng.randint(1, 30)}' for _ in range(rng.randint(0, 2))] + [f'ORF{rng.randint(1, 4)}'] + idx
+        if kind == 'circ':
+            cid = rng.choice([f'CIRC-{tx()}-E1-E2', f'CI-{tx()}-I2', f'CIRC-{tx()}-0:464'])
+            return [cid] + orf + [var() for _ in range(rng.randint(0, 2))] + [alt() for _ in range(rng.randint(0, 2))] + idx
+        fid = f'FUSION-{tx()}:{rng.randint(1, 900)}-{tx()}:{rng.randint(1, 900)}'
+        return [fid] + orf + [f'1-{var()}' for _ in range(rng.randint(0, 2))] + [f'2-{var()}' for _ in range(rng.randint(0, 2))] + [alt() for _ in range(rng.randint(0, 1))] + idx
+
+    def cases(self, rng, tier):
+        for _ in range(300 if tier != 'thorough' else 4000):
+            yield dict(header=' '.join('|'.join(self.entry(rng)) for _ in range(rng.randint(1, 3))))
+
+    def check(self, inp):
+        from moPepGen.aa.VariantPeptideIdentifier import parse_variant_peptide_id
+        ents = inp['header'].split(' ')
+        got = parse_variant_peptide_id(inp['header'], set())
+        if len(got) != len(ents):
+            return dict(call=f'parse_variant_peptide_id({inp["header"]!r})', observed=f'{len(got)} entries', expected=f'{len(ents)} entries', signature='entry-count')
+        for e_, g in zip(ents, got):
+            if sorted(str(g).split('|')) != sorted(e_.split('|')):
+                return dict(call=f'str(parse_variant_peptide_id({e_!r}))', observed=str(g), expected=e_, signature='header-field-lost-or-changed')
+        return None
+
+    def nontrivial(self, inp):
+        return inp['header'].split('|')[0][:4] + str(inp['header'].count(' '))
+
+
+NATIVE = [NativeBookkeeping(), NativeWildcardMap(), NativeHeaderRoundTrip()]
